@@ -407,7 +407,7 @@ def predict_start(defs, fid, t, susp, code):
     st, _, _, bad = def_specs(defs[fid])
     if bad or fid in susp or code[0] in "re":
         return False
-    if code[0] in "fx" and int(code.split(":")[1]) // 60 * 60 >= t:
+    if code[0] in "fxco" and int(code.split(":")[1]) // 60 * 60 >= t:
         return False
     for s in st:
         p = py_parse(s)
@@ -416,21 +416,26 @@ def predict_start(defs, fid, t, susp, code):
     return False
 
 
+FINAL = ["f", "x", "c", "o"]     # every label the store can return for a run that is not running: finished (success), failed
+                                 # (error, legacy time format), canceled, and "none" WITH a start time
+
+
 def gen_status(rng, t, prev_started):
-    """status code for one DAG at tick t: running / started same minute / later / older / none"""
+    """status code for one DAG at tick t: running, or one of EVERY final label, each combined with a start in the same
+    minute / +-1 min / earlier / later; never run; '-'; unreadable"""
     r = rng.random()
     if prev_started is not None and r < 0.7:   # consistent history: the run the daemon started is visible
-        return rng.choice(["r:%d", "f:%d", "x:%d"]) % (prev_started + rng.randint(0, 59))
-    if r < 0.3:
+        return rng.choice(["r:%d", "f:%d", "x:%d", "c:%d", "c:%d", "o:%d"]) % (prev_started + rng.randint(0, 59))
+    if r < 0.27:
         return "n"
-    if r < 0.36:
+    if r < 0.32:
         return "z"
-    if r < 0.40:
+    if r < 0.36:
         return "e"
-    if r < 0.55:
+    if r < 0.48:
         return "r:%d" % (t - rng.choice([5, 70, 4000, 90000]))
-    kind = rng.choice(["f", "f", "x"])
-    off = rng.choice([0, 1, 59, 60, 61, -1, -59, -60, -61, -3600, -86400, -31536000, 3600])
+    kind = rng.choice(FINAL)
+    off = rng.choice([0, 0, 1, 30, 59, 60, 61, -1, -59, -60, -61, -3600, -86400, -31536000, 3600])
     return "%s:%d" % (kind, max(0, t + off))
 
 
@@ -544,6 +549,13 @@ def corpus():
         {"op": "boot", "now0": T + 40}, tick({"1": "r:%d" % (T + 4)}),
         {"op": "boot", "now0": T + 50}, tick({"1": "f:%d" % (T + 4)}),
         {"op": "boot", "now0": T + 55}, tick({"1": "f:%d" % (T - 1)})]})
+    # the tick for minute T evaluated again (daemon restarted within T) after the run started in T ended with EVERY final label
+    ops = [{"op": "file", "fid": 1, "def": {"form": "str", "s": "7 0 1 1 *"}}, {"op": "boot", "now0": T + 3}, tick({"1": "n"})]
+    for i, k in enumerate(["f", "x", "c", "o"]):
+        ops += [{"op": "boot", "now0": T + 20 + 5 * i}, tick({"1": "%s:%d" % (k, T + 4)})]          # started in T: refused
+    for i, k in enumerate(["f", "x", "c", "o"]):
+        ops += [{"op": "boot", "now0": T + 42 + 4 * i}, tick({"1": "%s:%d" % (k, T - 1)})]          # started before T: due
+    c.append({"k": "sim", "id": "w-same-minute-every-final-label", "flavour": "corpus", "ops": ops})
     # suspension goes by FILE id whatever `name:` says: d1 (name: report) suspended, d2 carries d1's id as its name,
     # d3 carries its own; then d2 suspended instead
     ev = "* * * * *"
@@ -792,7 +804,7 @@ def monitor_sim(chk, c, outs, counters):
             if mS or mT or mR or nS or nT or nR:
                 chk.nontrivial.add(key)
             running = code[0] == "r"
-            last = int(code.split(":")[1]) if code[0] in "rfx" else (-(10 ** 12) if code == "z" else None)
+            last = int(code.split(":")[1]) if code[0] in "rfxco" else (-(10 ** 12) if code == "z" else None)
             readable = code != "e"
             counters["start_calls"] += nS; counters["stop_calls"] += nT; counters["restart_calls"] += nR
             if mS:
@@ -803,6 +815,7 @@ def monitor_sim(chk, c, outs, counters):
                     counters["match_but_running"] += 1
                 elif last is not None and last // 60 * 60 == t:
                     counters["match_but_started_same_minute"] += 1
+                    counters["same_minute_" + code[0]] = counters.get("same_minute_" + code[0], 0) + 1
                 elif last is not None and last // 60 * 60 > t:
                     counters["match_but_started_later"] += 1
                 elif readable:
@@ -826,6 +839,11 @@ def monitor_sim(chk, c, outs, counters):
                         chk.violation("C09:suspended-dag-started:explicit-name-differs-from-file-id",
                                       "DAG file d%d.yaml (explicit `name: %s`) is suspended (flag under its file id, as the API writes it) "
                                       "but is still started at a scheduled minute" % (fid, d["name"]), c)
+                    elif mS and not susp and not running and last is not None and last // 60 * 60 >= t:
+                        label = {"f": "finished", "x": "failed", "c": "canceled", "o": "none"}.get(code[0], code[0])
+                        chk.violation("C09:started-twice-in-the-minute:latest-run-" + label,
+                                      "Start issued for d%d at minute %d although its latest run (status %s) started at %d, i.e. in or after "
+                                      "that minute: the minute is run twice" % (fid, t, label, last), c)
                     else:
                         chk.violation("C09:start-not-due", "Start issued for d%d at %d: matching=%s suspended=%s status=%s" % (fid, t, mS, susp, code), c)
                 if exp_start and nS == 0:
@@ -1065,7 +1083,7 @@ def run(chk, replay):
                 "instants 1970-2100 with month ends, leap days, year ends, epoch; daemon cases: 1-5 files (single / list / start-stop-restart map; valid, "
                 "an explicit `name:` different from / equal to another file's / equal to the own file id, suspended through the flag store by file id, invalid YAML, invalid cron, wrong types, panicking), 1-3 daemon lifetimes (restart in the same minute / "
                 "minutes later / hours-years later), 1-5 ticks each with a wall clock 0 s-67 min late, files added/edited/removed through the real watcher, "
-                "status per DAG per tick: never run / '-' / unreadable / running / finished started in the same minute, ±1 min, hours-years earlier, later; "
+                "status per DAG per tick: never run / '-' / unreadable / running / EVERY final label (finished, failed, canceled, none-with-start-time) x started in the same minute, ±1 min, hours-years earlier, later; "
                 "the real loop start() under a scripted late clock. non-trivial = a spec that fires at the queried minute, every Next query, and every "
                 "(DAG, tick) with a matching schedule or an issued call; distinct = distinct (expressions, minute, status, suspended)")
     sims = [i for i, c in enumerate(cases) if c["k"] == "sim"]
